@@ -4,7 +4,7 @@ CONSTANTS
   MaxDepth = 5
   MaxUnits = 3
   MaxRich <- Unlimited
-  MaxVar = 9
+  MaxVar = 30
   UnitKinds <- AllUnits
   ConKinds <- AllCons
   SpecKinds <- AllSpec
